@@ -28,8 +28,12 @@ def parseJV (s : Str) : JV :=
 def optJV (s : Str) : Option JV := if s = [45] then none else some (parseJV s)
 
 def parseErrV : List Str → Option ErrV
-  | [k, c, m] => if k = [82] then some (.res (decS c) (decS m)) else none
+  | [k, c, m] =>
+    if k = [82] then some (.res (decS c) (decS m))
+    else if k = [87] then some (.go (str "wrap: " ++ decS m))   -- W: an ordinary error wrapping a *res.Error
+    else none
   | [k, m] => if k = [71] then some (.go (decS m)) else none
+  | [k] => if k = [85] then some .resBad else none               -- U: *res.Error with unmarshalable Data
   | _ => none
 
 def parseProps : List Str → List (Str × JV)
@@ -68,7 +72,7 @@ def parseAction (f : Str) : Option Action :=
     | "header", [k, v] => some (.header (decS k) (decS v))
     | "parse", [b] => some (.parseParams (b = [84]))
     | "panic", k :: rest =>
-      if k = [82] ∨ k = [71] then (parseErrV (k :: rest)).map (fun e => .panic (.err e))
+      if k = [82] ∨ k = [71] ∨ k = [87] ∨ k = [85] then (parseErrV (k :: rest)).map (fun e => .panic (.err e))
       else match rest with
         | [m] => if k = [83] then some (.panic (.str (decS m))) else if k = [79] then some (.panic (.other (decS m))) else none
         | _ => none
@@ -274,6 +278,8 @@ def conformant (p : Parsed) (subj payload : Str) : Option String :=
     | [] => some "empty-subject"
 
 def judge07 (p : Parsed) (log : List Eff) : String :=
+  -- request subjects with an empty token cannot be delivered by NATS: only valid resource names are in scope
+  if !isValidRIDB p.rin.rname then "-" else
   match log.findSome? (fun e => match e with
       | .pub s pl => (conformant p s pl).map (fun why => why ++ ":" ++ Str.show s)
       | _ => none) with
